@@ -14,17 +14,18 @@
    the serialized config incl. applied_filters) and user files keyed by a user path.
    KeyIncludesFilters = FALSE is the deliberately broken design (cache name ignores the filter list). *)
 EXTENDS Naturals, Sequences, FiniteSets, TLC
-CONSTANTS Bases, Filters, Paths, MaxFl, MaxHandles, MaxOps, KeyIncludesFilters
+CONSTANTS Bases, Filters, Paths, MaxFl, MaxHandles, MaxColls, MaxOps, KeyIncludesFilters
 VARIABLES hs,        \* sequence of handles [cfg, data]
+          colls,     \* sequence of collections: each a sequence of member handles [cfg, data]
           cache,     \* cache key -> Absent | [cfg, data]
           files,     \* user path -> Absent | [cfg, data]
           ops, hist
-svars == <<hs, cache, files, ops, hist>>
+svars == <<hs, colls, cache, files, ops, hist>>
 FlSeqs == UNION {[1..n -> Filters] : n \in 0..MaxFl}
 Keys == Bases \X FlSeqs
 CacheKey(c, fl) == IF KeyIncludesFilters THEN <<c, fl>> ELSE <<c, <<>>>>
 Absent == [cfg |-> <<"-", <<>>>>, data |-> <<"-", <<>>>>]      \* (a record, so that it is comparable with real entries)
-Init == /\ hs = <<>> /\ cache = [k \in Keys |-> Absent] /\ files = [p \in Paths |-> Absent] /\ ops = 0 /\ hist = <<>>
+Init == /\ hs = <<>> /\ colls = <<>> /\ cache = [k \in Keys |-> Absent] /\ files = [p \in Paths |-> Absent] /\ ops = 0 /\ hist = <<>>
 Tick == ops < MaxOps /\ ops' = ops + 1
 H(e) == hist' = Append(hist, e)
 \* from_config(cfg(c, fl)) with the local cache: a warm file is returned as stored (after the config check,
@@ -35,22 +36,40 @@ Request(c, fl) ==
   /\ LET k == CacheKey(c, fl) IN
      IF cache[k] # Absent
        THEN IF cache[k].cfg = <<c, fl>>
-              THEN /\ hs' = Append(hs, cache[k]) /\ UNCHANGED <<cache, files>> /\ H([op |-> "request", c |-> c, fl |-> fl, how |-> "warm"])
-              ELSE /\ UNCHANGED <<hs, cache, files>> /\ H([op |-> "request", c |-> c, fl |-> fl, how |-> "mismatch"])
+              THEN /\ hs' = Append(hs, cache[k]) /\ UNCHANGED <<cache, files, colls>> /\ H([op |-> "request", c |-> c, fl |-> fl, how |-> "warm"])
+              ELSE /\ UNCHANGED <<hs, cache, files, colls>> /\ H([op |-> "request", c |-> c, fl |-> fl, how |-> "mismatch"])
        ELSE /\ hs' = Append(hs, [cfg |-> <<c, fl>>, data |-> <<c, fl>>])
             /\ cache' = [cache EXCEPT ![k] = [cfg |-> <<c, fl>>, data |-> <<c, fl>>]]
-            /\ UNCHANGED files /\ H([op |-> "request", c |-> c, fl |-> fl, how |-> "cold"])
+            /\ UNCHANGED <<files, colls>> /\ H([op |-> "request", c |-> c, fl |-> fl, how |-> "cold"])
 \* h.filter_by.f(): a NEW dataset; provenance appended; the input handle is untouched
 Filter(i, f) ==
   /\ Tick /\ i \in 1..Len(hs) /\ Len(hs) < MaxHandles /\ Len(hs[i].cfg[2]) < MaxFl
   /\ LET nf == Append(hs[i].cfg[2], f) IN
      hs' = Append(hs, [cfg |-> <<hs[i].cfg[1], nf>>, data |-> <<hs[i].data[1], Append(hs[i].data[2], f)>>])
-  /\ UNCHANGED <<cache, files>> /\ H([op |-> "filter", i |-> i, f |-> f])
+  /\ UNCHANGED <<cache, files, colls>> /\ H([op |-> "filter", i |-> i, f |-> f])
 Save(i, p) == /\ Tick /\ i \in 1..Len(hs) /\ files' = [files EXCEPT ![p] = hs[i]]
-              /\ UNCHANGED <<hs, cache>> /\ H([op |-> "save", i |-> i, p |-> p])
+              /\ UNCHANGED <<hs, cache, colls>> /\ H([op |-> "save", i |-> i, p |-> p])
 Read(p) == /\ Tick /\ files[p] # Absent /\ Len(hs) < MaxHandles /\ hs' = Append(hs, files[p])
-           /\ UNCHANGED <<cache, files>> /\ H([op |-> "read", p |-> p])
-Next == \/ \E c \in Bases, fl \in FlSeqs : Request(c, fl)
+           /\ UNCHANGED <<cache, files, colls>> /\ H([op |-> "read", p |-> p])
+\* MazeDatasetCollection(cfg built from the members' configs, [hs[i], hs[j]]): the members themselves, in order
+Collect(i, j) ==
+  /\ Tick /\ i \in 1..Len(hs) /\ j \in 1..Len(hs) /\ Len(colls) < MaxColls
+  /\ colls' = Append(colls, <<hs[i], hs[j]>>)
+  /\ UNCHANGED <<hs, cache, files>> /\ H([op |-> "collect", i |-> i, j |-> j])
+\* MazeDatasetCollection.generate(collection config over base configs c and d): members generated from their configs
+CollGenerate(c, d) ==
+  /\ Tick /\ c \in Bases /\ d \in Bases /\ Len(colls) < MaxColls
+  /\ colls' = Append(colls, <<[cfg |-> <<c, <<>>>>, data |-> <<c, <<>>>>], [cfg |-> <<d, <<>>>>, data |-> <<d, <<>>>>]>>)
+  /\ UNCHANGED <<hs, cache, files>> /\ H([op |-> "collgen", c |-> c, d |-> d])
+\* load(serialize(collection)): an equal collection (member by member)
+CollRoundTrip(k) ==
+  /\ Tick /\ k \in 1..Len(colls) /\ Len(colls) < MaxColls
+  /\ colls' = Append(colls, colls[k])
+  /\ UNCHANGED <<hs, cache, files>> /\ H([op |-> "collrt", k |-> k])
+Next == \/ \E i, j \in 1..MaxHandles : Collect(i, j)
+        \/ \E c, d \in Bases : CollGenerate(c, d)
+        \/ \E k \in 1..MaxColls : CollRoundTrip(k)
+        \/ \E c \in Bases, fl \in FlSeqs : Request(c, fl)
         \/ \E i \in 1..MaxHandles, f \in Filters : Filter(i, f)
         \/ \E i \in 1..MaxHandles, p \in Paths : Save(i, p)
         \/ \E p \in Paths : Read(p)
@@ -59,13 +78,15 @@ Spec == Init /\ [][Next]_svars
 ConfigTellsTheTruth == \A i \in 1..Len(hs) : hs[i].data = hs[i].cfg
 FilesTellTheTruth == /\ \A k \in Keys : cache[k] # Absent => cache[k].data = cache[k].cfg
                      /\ \A p \in Paths : files[p] # Absent => files[p].data = files[p].cfg
+\* a collection is the sequence of its members, each of which is what its own configuration says (C16 / C05 composed)
+CollectionsTellTheTruth == \A k \in 1..Len(colls) : \A m \in 1..Len(colls[k]) : colls[k][m].data = colls[k][m].cfg
 \* a request never hands out a dataset of another configuration
 RequestGetsWhatItAskedFor ==
   \A j \in 1..Len(hist) : (hist[j].op = "request" /\ hist[j].how # "mismatch") =>
      \E i \in 1..Len(hs) : hs[i].cfg = <<hist[j].c, hist[j].fl>>
 \* with a truthful cache name a mismatch can never occur
 NoMismatch == \A j \in 1..Len(hist) : hist[j].op = "request" => hist[j].how # "mismatch"
-NoHist == <<hs, cache, files, ops>>
+NoHist == <<hs, colls, cache, files, ops>>
 BasesAB == {"a", "b"}
 FiltersPT == {"p", "t"}
 PathsXY == {"x"}
